@@ -1063,6 +1063,9 @@ def correspondence(ctx):
     wlines, wres = [], []
     for case in window_cases():
         res = run_window(case["request"], case["gate"])           # Infrastructure propagates: exit 2
+        if window_oracle(res):
+            c.count("window-run-repeated")      # real threads: repeated once before it is believed
+            res = run_window(case["request"], case["gate"])
         wres.append((case, res))
         wlines.append("ledger run 0 0 iA%s dB FB%s:%d dA" % ("s" if case["request"] == "sync_value" else "a",
                                                             "x" if case["request"] == "async_exception" else "v",
@@ -1211,6 +1214,8 @@ def oracle_search(ctx, corr, broken):
 
     def check_window(case):
         res = run_window(case["request"], case["gate"])
+        if window_oracle(res):
+            res = run_window(case["request"], case["gate"])
         w = window_oracle(res)
         if w and w[1] not in getattr(ctx, "known_signatures", set()):
             return (case, w[0], w[1])
